@@ -2,5 +2,5 @@
 From Coq Require Import List NArith Bool Arith.
 From QV Require Import Dict.Micro Dict.MicroFull Dict.MicroFullHist Dict.MicroFullProofs Dict.MicroFullWitness Dict.MicroFullBounded.
 Import ListNotations.
-Lemma famC3_ok : forallb (cfg_ok_sp pol_patch) famC3 = true.
+Lemma fam_steps_ok : forallb (cfg_ok_steps pol_patch) patch_family_steps = true.
 Proof. vm_compute. reflexivity. Qed.
